@@ -92,6 +92,7 @@ fn main() {
         "C01" | "C03" | "C13" | "C14" => codecprops::run(&ctx, &argv[1]),
         "C02" => c02::run(&ctx),
         "c02-digest-server" => c02::digest_server(),
+        "c02-one" => c02::one(),
         "C04" => c04::run(&ctx),
         "C05" => seq::run_c05(&ctx),
         "C06" => seq::run_c06(&ctx),
